@@ -521,7 +521,8 @@ def gen(rnd, persona):
             case["style"] = "+" + rnd.choice(["L", "W"])
         return case
     case["kind"] = rnd.choice(["text", "sgr", "ech", "cuf"] + (["block", "kitty", "iterm2"] if surface == "pad" else []))
-    fill = rnd.choice([" ", " ", "", "*", "█", "x"])
+    # (one-column characters, including ones that are special to formatting mini-languages)
+    fill = rnd.choice([" ", " ", "", "*", "█", "x", "{", "}", "%", "\\", "$"])
     if rnd.random() < 0.35:
         pad = dict(type="exact", dims=[rnd.randint(0, 6) for _ in range(4)], fill=fill)
     else:
